@@ -28,8 +28,15 @@ func TestVerif(t *testing.T) {
 
 type fileSpec struct{ rel, body string }
 
+func repoRoot() string {
+	if r := os.Getenv("VERIF_REPO"); r != "" {
+		return r
+	}
+	return "/repo"
+}
+
 func read(name string) string {
-	b, err := os.ReadFile(filepath.Join("/repo/v2/assets", name))
+	b, err := os.ReadFile(filepath.Join(repoRoot()+"/v2/assets", name))
 	if err != nil {
 		panic(err)
 	}
@@ -96,7 +103,11 @@ func c19CLI(c *vrep.Ctx) {
 	bin := filepath.Join(tmp, "identify_license")
 	build := exec.Command("go", "build", "-o", bin, "github.com/google/licenseclassifier/v2/tools/identify_license")
 	build.Dir = "/verif/h"
-	build.Env = append(os.Environ(), "GOFLAGS=-mod=mod", "GOPROXY=off", "GOSUMDB=off", "GOTOOLCHAIN=local")
+	flags := "-mod=mod"
+	if mf := os.Getenv("VERIF_MODFILE"); mf != "" {
+		flags += " -modfile=" + mf
+	}
+	build.Env = append(os.Environ(), "GOFLAGS="+flags, "GOPROXY=off", "GOSUMDB=off", "GOTOOLCHAIN=local")
 	if b, err := build.CombinedOutput(); err != nil {
 		panic(fmt.Sprintf("building identify_license from the current tree failed: %v\n%s", err, b))
 	}
@@ -267,18 +278,18 @@ func c12Default(c *vrep.Ctx) {
 		panic(err)
 	}
 	ld := classifier.NewClassifier(0.8)
-	if err := ld.LoadLicenses("/repo/v2/assets"); err != nil {
+	if err := ld.LoadLicenses(repoRoot() + "/v2/assets"); err != nil {
 		panic(err)
 	}
 	c.R.Rule = "DefaultClassifier() vs NewClassifier(0.8)+LoadLicenses(/repo/v2/assets): every corpus file planted between unrelated lines, every scenario file and a few unrelated texts must give identical Results (names, variants, confidences, spans, order); non-trivial = inputs with a match"
 	var files []string
-	filepath.Walk("/repo/v2/assets", func(p string, info os.FileInfo, err error) error {
+	filepath.Walk(repoRoot()+"/v2/assets", func(p string, info os.FileInfo, err error) error {
 		if err == nil && !info.IsDir() && strings.HasSuffix(p, ".txt") {
 			files = append(files, p)
 		}
 		return nil
 	})
-	sc, _ := filepath.Glob("/repo/v2/scenarios/*")
+	sc, _ := filepath.Glob(repoRoot() + "/v2/scenarios/*")
 	files = append(files, sc...)
 	sort.Strings(files)
 	render := func(r classifier.Results) string {
